@@ -111,6 +111,16 @@ func init() {
 		HarnessSpec{Name: "VH_C13_signed_documents", Replay: "native", Unwind: 2000},
 		HarnessSpec{Name: "VH_C13_sign_is_pure", Replay: "native", Unwind: 2000})
 	props["C15"].Harnesses = append(props["C15"].Harnesses, HarnessSpec{Name: "VH_C13_sign_is_pure", Replay: "native", Unwind: 2000})
+	reg(&PropSpec{ID: "C16",
+		Harnesses: []HarnessSpec{
+			{Name: "VH_C16_auth_post", Replay: "native", Unwind: 400},
+			{Name: "VH_C16_logout_post", Replay: "native", Unwind: 400},
+			{Name: "VH_C16_logout_response_post", Replay: "native", Unwind: 400},
+			{Name: "VH_C16_auth_body_post", Replay: "native", Unwind: 2000},
+		},
+		Bounds:  map[string]string{"quick": "arbitrary relay state / endpoint / document strings; relay present or empty; signing on/off; two consecutive renderings", "thorough": "same"},
+		Outside: []string{"correctness of html/template's contextual escaper (its documented contract is the model): values are checked to be bound through an escaping action inside a double-quoted attribute of the constant template"},
+	})
 	reg(&PropSpec{ID: "C14",
 		Harnesses: []HarnessSpec{
 			{Name: "VH_C14_auth_url", Replay: "native", Unwind: 400},
